@@ -507,7 +507,8 @@ func getParamsCount(stmt sqlparser.Statement) (int, error) {
 
 func (handler *Handler) handleStatementExecute(ctx context.Context, packet *Packet) (uint32, error) {
 	packetData := packet.GetData()
-	if len(packetData) < 2 {
+	// command byte and four bytes of statement id
+	if len(packetData) < 5 {
 		handler.logger.Debug("Execute statement packet has not enough data")
 		return 0, ErrInvalidResponseLength
 	}
@@ -657,6 +658,10 @@ func (handler *Handler) processBinaryDataRow(ctx context.Context, rowData []byte
 	// 1 - packet header
 	// 7 + 2 offset from docs
 	pos = 1 + ((len(fields) + 7 + 2) >> 3)
+	// the row must carry the whole NULL bitmap
+	if len(rowData) < pos {
+		return nil, base_mysql.ErrMalformPacket
+	}
 	nullBitmap := rowData[1:pos]
 	output = append(output, rowData[:pos]...)
 
@@ -700,6 +705,14 @@ func (handler *Handler) extractData(pos int, rowData []byte, field *ColumnDescri
 	fieldType := field.Type
 	if field.changed {
 		fieldType = field.originType
+	}
+
+	// fixed-length values must be present in the row completely
+	if size, ok := base_mysql.NumericTypesStorageBytes[fieldType]; ok && (pos < 0 || len(rowData)-pos < int(size)) {
+		return nil, 0, base_mysql.ErrMalformPacket
+	}
+	if pos > len(rowData) {
+		return nil, 0, base_mysql.ErrMalformPacket
 	}
 
 	switch fieldType {
